@@ -25,11 +25,11 @@ TIMEOUTS = {"quick": (300, 30), "thorough": (1200, 60)}
 
 
 def BOUNDS(tier):
-    return {"max_children": 4 if tier == "quick" else 6, "parents": ["tree (top level)", "nested node", "nested node with a grandchild"], "kinds": "symbolic selector over 3 names"}
+    return {"max_children": 6 if tier == "quick" else 8, "parents": ["tree (top level)", "nested node", "nested node with a grandchild"], "kinds": "symbolic selector over 3 names"}
 
 
 def shards(tier):
-    M = 4 if tier == "quick" else 6
+    M = 6 if tier == "quick" else 8
     out = []
     for m in range(0, M + 1):
         for where in ("top", "nested"):
